@@ -221,6 +221,22 @@ example : names (resolve attrProg (.entry 3)) = ["t", "r", "g", "e", "z", "b"] :
 example : accepts attrProg (.entry 3) "c" = false ∧ accepts attrProg (.entry 3) "q" = false ∧
     accepts attrProg (.entry 3) "b" = true ∧ accepts attrProg (.cmeth 2 0) "q" = true := by decide
 
+/-- pops nested in the argument list of the forwarding call (evaluated before the call binds):
+      class K0: __init__(self, label: str = 'l', size: int = 1, color: str = 'c')
+      class K1(K0): __init__(self, **kw): super().__init__(label=kw.pop('title', 'untitled'), **kw)
+      def f2(**kw): return K0(kw.pop('t2', 't'), size=kw.pop('level', 1) * 4, **kw) -/
+def nestedProg : Prog := ⟨[
+  klass (some ⟨[pk "label" "str" "l", pk "size" "int" "1", pk "color" "str" "c"], false, []⟩) [],
+  klass (some ⟨[], true, [al (.superCall none 0 ["label"]), al (.popIn "title" (dv "untitled"))]⟩) [0],
+  .fn ⟨[], true, [al (.call (.entry 0) 1 ["size"]), al (.popIn "t2" (dv "t")), al (.popIn "level" (dv "1"))]⟩]⟩
+
+example : WfProg nestedProg = true := by decide
+/-- the resolver records the call first, then the nested pop (AST-visit order) -/
+example : names (resolve nestedProg (.entry 1)) = ["size", "color", "title"] := by decide
+example : names (resolve nestedProg (.entry 2)) = ["color", "t2", "level"] := by decide
+example : accepts nestedProg (.entry 1) "title" = true ∧ accepts nestedProg (.entry 1) "label" = false ∧
+    accepts nestedProg (.entry 2) "level" = true ∧ accepts nestedProg (.entry 2) "size" = false := by decide
+
 /-- #14b: `extra = kwargs.get('extra', 5); super().__init__(**kwargs)` -/
 def progGet : Prog := ⟨[base,
   klass (some ⟨[pk "c" "int" "1"], true, [al (.get "extra" (dv "5")), al (.superCall none 0 [])]⟩) [0]]⟩
